@@ -71,6 +71,42 @@ CHANGE_SETTERS = ("set_atom_stereo_change", "set_bond_stereo_change")
 ROLE_KEYS = ("formed", "broken", "fleeting")
 
 
+def _generator_per_role(fi, call, key_names):
+    """`for name, stereo in gen(..): setter(**{name: ..})` where `gen` is a
+    local generator that yields `(role, descriptor)` pairs from inside a
+    `for role, stereo in <mapping>.items()` loop: the same per-role call, the
+    role loop moved into the generator.  Returns the role loop or None."""
+    for a in ancestors(call):
+        if not (isinstance(a, ast.For) and isinstance(a.target, ast.Tuple)
+                and a.target.elts and isinstance(a.target.elts[0], ast.Name)
+                and a.target.elts[0].id in key_names):
+            continue
+        it = a.iter
+        if not (isinstance(it, ast.Call) and isinstance(it.func, ast.Name)):
+            return None
+        gens = [d for d in ast.walk(fi.node) if isinstance(d, ast.FunctionDef)
+                and d.name == it.func.id and d is not fi.node]
+        if len(gens) != 1:
+            return None
+        for y in ast.walk(gens[0]):
+            if not (isinstance(y, ast.Yield) and isinstance(
+                    y.value, ast.Tuple) and y.value.elts):
+                continue
+            first = {x.id for x in ast.walk(y.value.elts[0])
+                     if isinstance(x, ast.Name)}
+            for l in ancestors(y):
+                if isinstance(l, ast.For) and isinstance(
+                        l.iter, ast.Call) and isinstance(
+                        l.iter.func, ast.Attribute) and \
+                        l.iter.func.attr == "items" and isinstance(
+                        l.target, ast.Tuple) and len(l.target.elts) == 2 \
+                        and isinstance(l.target.elts[0], ast.Name) and \
+                        l.target.elts[0].id in first:
+                    return l
+        return None
+    return None
+
+
 def check_setter_once(prog: Program, res, functions, label: str) -> None:
     """R-SETTER-ONCE: set_atom_stereo_change / set_bond_stereo_change replace
     the whole change entry of a centre (every role that is not passed is
@@ -131,6 +167,8 @@ def check_setter_once(prog: Program, res, functions, label: str) -> None:
                         if "<one>" in roles:
                             per_role = a
                         break
+            if per_role is None and "<one>" in roles:
+                per_role = _generator_per_role(fi, call, key_names)
             if per_role is not None:
                 res.bad("R-SETTER-ONCE", f"{fi.short}: {norm(call, 70)}",
                         fi.loc(call), f"{label}: `{norm(call, 70)}` passes "
